@@ -266,7 +266,30 @@ def san_env(halt=False):
 
 
 def run_cases(binary, cases, workdir, timeout=300, watchdog=60, halt=False,
-              extra_header=(), valgrind=False):
+              extra_header=(), valgrind=False, confirm_hangs=True):
+    """see _run_cases; a case that hit the per-operation watchdog is re-run
+    once alone with a six times longer limit before it is reported as a hang
+    (a loaded machine must not turn a slow case into a violation)"""
+    results = _run_cases(binary, cases, workdir, timeout, watchdog, halt,
+                         extra_header, valgrind)
+    if confirm_hangs:
+        texts = dict(cases)
+        for cid, r in list(results.items()):
+            if r.status == "timeout" and cid in texts:
+                again = _run_cases(binary, [(cid, texts[cid])],
+                                   workdir + "-hang", max(timeout, 900),
+                                   watchdog * 6, halt, extra_header, valgrind)
+                r2 = again.get(cid)
+                if r2 is not None and r2.status != "timeout":
+                    r2.detail = (r2.detail + " (first run hit the %d s "
+                                 "watchdog)" % watchdog).strip()
+                    results[cid] = r2
+                shutil.rmtree(workdir + "-hang", ignore_errors=True)
+    return results
+
+
+def _run_cases(binary, cases, workdir, timeout=300, watchdog=60, halt=False,
+               extra_header=(), valgrind=False):
     """cases: list of (case_id, script_text).  Runs them in as few driver
     processes as possible (a crash, hang or leak ends a process; the rest is
     resumed in a new one).  Returns {case_id: CaseResult}."""
